@@ -18,6 +18,7 @@ package main
 import (
 	"fmt"
 	"net"
+	"sort"
 	"strconv"
 	"strings"
 	"sync"
@@ -404,6 +405,14 @@ func runRingHistory(o *hlib.Out, kind string, ops []rop) {
 	}
 	var pending []pend
 	seen := map[string]bool{}
+	type retainedHosts struct {
+		at   int
+		cur  map[string]*gocql.HostInfo
+		all  []*gocql.HostInfo
+		ids  string
+		nall int
+	}
+	var retained []retainedHosts
 	var text []string
 	probeIDs := []int64{0, 1, 2, 3, 4, 5, 6}
 	probeKeys := []int64{0, -1}
@@ -447,6 +456,14 @@ func runRingHistory(o *hlib.Out, kind string, ops []rop) {
 			}
 			ipp = append(ipp, fmt.Sprintf("IPP %s %s %s", hlib.Z(k), hlib.Z(hid), hlib.Bool(ok)))
 		}
+		// retained outputs: the copies handed out by currentHosts / allHosts must not change afterwards
+		cur, all := rg.CurrentHosts(), rg.AllHosts()
+		ids := make([]string, 0, len(cur))
+		for id := range cur {
+			ids = append(ids, id)
+		}
+		sort.Strings(ids)
+		retained = append(retained, retainedHosts{i, cur, all, strings.Join(ids, ","), len(all)})
 		_, ips, list := rg.Dump()
 		steps = append(steps, fmt.Sprintf("RStep (%s) %s %s %s %s %s %s", opT, retT, ipsTerm(ips), listTerm(list), hlib.ZListI(probeIDs),
 			hlib.List(found), hlib.List(ipp)))
@@ -459,6 +476,18 @@ func runRingHistory(o *hlib.Out, kind string, ops []rop) {
 		}
 	}
 	idx := o.Case(kind, len(ops) > 1, "CRing "+hlib.List(steps)+" "+dumpTerm(rg))
+	for _, rt := range retained {
+		ids := make([]string, 0, len(rt.cur))
+		for id := range rt.cur {
+			ids = append(ids, id)
+		}
+		sort.Strings(ids)
+		if strings.Join(ids, ",") != rt.ids || len(rt.all) != rt.nall {
+			o.Violate(idx, "retained-hosts-changed", "", fmt.Sprintf("the host map / list handed out by currentHosts / allHosts after operation %d changed afterwards: %s -> %s",
+				rt.at, rt.ids, strings.Join(ids, ",")), map[string]interface{}{"history": text})
+			break
+		}
+	}
 	for _, p := range pending {
 		o.Violate(idx, p.v.kind, p.fid, p.v.detail, map[string]interface{}{"history": text[:p.at+1]})
 	}
@@ -516,6 +545,47 @@ func windowCases(o *hlib.Out) {
 	}
 }
 
+// the hand-over of a batch to the callback: a window is flushed, further frames arrive before the callback
+// reads its batch; what both callbacks see (retained-input recheck: the first batch must still be the first window)
+func handoverCases(o *hlib.Out) {
+	cap := gocql.VerifC16EventBufferSize
+	for _, fs := range [][2]int{{1, 1}, {1, 3}, {3, 1}, {5, 5}, {2, 7}, {0, 2}, {2, 0}, {cap, 2}, {cap + 1, 1}, {2, cap + 1}, {cap, cap}} {
+		b1, b2 := gocql.VerifC16EventHandover(fs[0], fs[1])
+		toZ := func(b []int) []int64 {
+			xs := make([]int64, len(b))
+			for i, g := range b {
+				xs[i] = int64(g)
+			}
+			return xs
+		}
+		idx := o.Case("event-handover", true, fmt.Sprintf("CHandover %s %s %s %s", hlib.Nat(fs[0]), hlib.Nat(fs[1]), hlib.ZListI(toZ(b1)), hlib.ZListI(toZ(b2))))
+		min := func(a, b int) int {
+			if a < b {
+				return a
+			}
+			return b
+		}
+		ok := len(b1) == min(fs[0], cap) && len(b2) == min(fs[1], cap)
+		for i, g := range b1 {
+			ok = ok && g == i
+		}
+		for i, g := range b2 {
+			ok = ok && g == 1000000+i
+		}
+		if !ok {
+			o.Violate(idx, "event-batch-changed-after-handover", "", fmt.Sprintf("window of %d frames flushed, %d frames arrived before its callback read: the callbacks saw %v... and %v...",
+				fs[0], fs[1], head(b1), head(b2)), nil)
+		}
+	}
+}
+
+func head(b []int) []int {
+	if len(b) > 6 {
+		return b[:6]
+	}
+	return b
+}
+
 func main() {
 	o := hlib.Init("C16")
 	// hlib.NewRng(seed) starts splitmix64 at seed*G and steps by G: the streams of consecutive seeds are the same
@@ -537,6 +607,10 @@ func main() {
 	if !o.Search {
 		finishCluster = clusterScenarios(o)
 	}
+	var finishHandover func()
+	if o.Only < 0 {
+		finishHandover = handoverSession(o)
+	}
 	hostFnsCases(o, g, 300*o.Scale)
 	for _, h := range scriptedRingHistories() {
 		runRingHistory(o, "ring-scripted", h)
@@ -553,6 +627,7 @@ func main() {
 		exhaustiveRing(o)
 	}
 	windowCases(o)
+	handoverCases(o)
 	scriptedSessions(o)
 	for i := 0; i < 250*o.Scale; i++ {
 		g.randomSession(o)
@@ -562,6 +637,9 @@ func main() {
 	}
 	if finishCluster != nil {
 		finishCluster()
+	}
+	if finishHandover != nil {
+		finishHandover()
 	}
 	o.Finish("From GocqlV Require Import Lib.Base C16.ZMap C16.Model C16.Corr.", "C16.Corr.case", "C16.Corr.run")
 }
